@@ -114,7 +114,7 @@ class ExpandIdentity(RewriteRuleClassBase):
 
     def check(self, context, x, shape) -> MatchResult:
         check_result = MatchResult()
-        if shape.const_value is None:
+        if shape.const_value is None or shape.is_graph_input():
             # Shape is not a constant and cannot be guessed.
             return check_result.fail("Shape is not a constant and cannot be guessed.")
         if (x_shape := x.shape) is None:
